@@ -69,6 +69,22 @@ def lattice_base (rng):
     return dict (f = f, geo = geo, fam = 'lattice', media = ([[0, 0, 0]] if gnd else None), feeds = feeds, src = [], loads = [])
 # end def lattice_base
 
+def nearmiss_base (rng):
+    """ a fed wire and a second wire in line with it that begins a little beyond its end: a gap of 1.3 .. 1.7 matching
+        distances (1/1000 of the segment length) or of 0.03 .. 0.3 segment lengths - never joined, however the pair is
+        turned or scaled """
+    f, lam, segl, rad = gen.pick_scale (rng, 1 / 60., 1 / 22.)
+    n1, n2 = int (rng.integers (4, 12)), int (rng.integers (3, 9))
+    gap = float (rng.choice ([1.3e-3, 1.5e-3, 1.7e-3, 0.03, 0.1, 0.3])) * segl
+    ax  = np.eye (3) [int (rng.integers (0, 3))]
+    a   = ax * n1 * segl
+    geo = [gen.wire (n1, [0, 0, 0], a, rad), gen.wire (n2, a + ax * gap, a + ax * (gap + n2 * segl), rad)]
+    if rng.random () < 0.5:
+        geo [1]['p1'], geo [1]['p2'] = geo [1]['p2'], geo [1]['p1']
+    k = int (rng.integers (1, n1))
+    return dict (f = f, geo = geo, fam = 'nearmiss%g' % (gap / segl), media = None, feeds = [dict (at = (ax * k * segl).tolist (), dir = ax.tolist ())], src = [], loads = [])
+# end def nearmiss_base
+
 def make (c):
     rng = np.random.default_rng ([c ['seed'], 5, c ['i']])
     if 'corpus' in c:
@@ -86,6 +102,8 @@ def make (c):
     u = rng.random ()
     if c ['i'] % 9 == 4:
         spec = lattice_base (np.random.default_rng ([c ['seed'], 58, c ['i']]))
+    elif c ['i'] % 9 == 7:
+        spec = nearmiss_base (np.random.default_rng ([c ['seed'], 57, c ['i']]))
     elif c ['i'] % 18 == 6:
         spec = curve_base (np.random.default_rng ([c ['seed'], 59, c ['i']]), short = True)     # helix of two or three segments
     elif u < 0.12:
@@ -129,6 +147,16 @@ def add_motion (c, rng, spec, scale = True, taper = True):
             if gnd:
                 v [2] = 0.0
             tr.append (['translate', key, [float (x) for x in v]])
+    if str (spec.get ('fam', '')).startswith ('nearmiss') and (c ['i'] % 2 or float (spec ['fam'][8:]) < 0.01):
+        # a single turn that brings the axis of the pair (a coordinate axis) onto a space diagonal, more or less: the gap
+        # then has three components of about equal size
+        rd = np.random.default_rng ([c ['seed'], 571, c ['i']])
+        axis = np.asarray (spec ['feeds'][0]['dir'], float)
+        for k in range (5000):
+            ang = [float (np.round (rd.uniform (-180, 180), 2)) for j in range (3)]
+            if np.abs (georef.rot_xyz (ang) @ axis).max () <= 0.585:
+                break
+        tr, per_tag = [['rotate', 1.0, ang]], False
     sc = float (10 ** rng.uniform (-2, 2)) if rng.random () < 0.6 and scale else None
     spec ['motion'] = dict (tr = tr, sc = sc, per_tag = per_tag, order = [int (x) for x in rng.permutation (len (tr))])
     if sc and np.random.default_rng ([c ['seed'], 56, c ['i']]).random () < 0.4:
@@ -312,6 +340,9 @@ def check (c):
     if any (g.get ('taper') for g in spec ['geo']):
         # the short end segments of a tapered wire are what tapering is for; the invariance does not rest on them
         why = [w for w in why if w not in ('adjacent segment ratio > 2.1', 'segment < 8 radii', 'segment < lambda/200')]
+        ok  = not why
+    if str (spec.get ('fam', '')).startswith ('nearmiss'):
+        why = [w for w in why if w != 'unconnected wires < 2 segment lengths apart']     # (that is what this family is)
         ok  = not why
     if not ok:
         return dict (status = 'discard', reason = 'validity: ' + why [0])
